@@ -6,6 +6,7 @@ import TantivyModel.Proofs.DocSet.SimpleUnion
 import TantivyModel.Proofs.DocSet.Intersection
 import TantivyModel.Proofs.DocSet.BufferedUnion
 import TantivyModel.Proofs.DocSet.IntersectionCount
+import TantivyModel.Proofs.DocSet.BufferedUnionSeek
 import TantivyModel.Model.DocSet.Tree
 /-!
 # C13 — every DocSet is one sorted sequence under any mix of advance and seek
@@ -262,6 +263,29 @@ theorem C13_union_advance_program_equiv_partial (hA : Lawful A VA WA)
     implRun (BUnion.ds A H fx) s prog = specRun ⟨l, none⟩ prog :=
   core0_program_equiv (BUnion.ds A H fx) (BUnion.V VA H) (BUnion.core0 hA hscore hH hH0) prog s l hV hp
 
+/-- BufferedUnionScorer::seek (the code as it is after the repairs, read from the extracted guards):
+the buffered branch (drop the whole 64-doc buckets below the target's bucket, then advance) and the
+far branch (clear the window, re-validate every child with `seek(max(doc, target))`, drop the
+exhausted ones, refill, pop) both land on the first member `≥ target` and keep the window
+invariant — for every horizon `H` (multiple of 64), every lawful children, every target. -/
+theorem C13_union_seek_refines (hA : Lawful A VA WA)
+    (hscore : ∀ {c l}, VA c l → VA (A.score c).2 l) (H : Nat) (hH : 64 ∣ H) (hH0 : 0 < H) (fx : Fix)
+    (s : BUnion.State σ) (l : List Nat) (t : Nat) (hV : BUnion.V VA H s l) (hd : s.doc ≤ t)
+    (ht : t ≤ TERMINATED) :
+    BUnion.V VA H (BUnion.seek fx A H t s) (Spec.seek t l)
+      ∧ (BUnion.seek fx A H t s).doc = Spec.doc (Spec.seek t l) :=
+  ⟨BUnion.seek_law hA hscore hH hH0 fx hV hd ht,
+    (BUnion.core0 hA hscore hH hH0).doc_eq (BUnion.seek_law hA hscore hH hH0 fx hV hd ht)⟩
+
+/-- every legal program of doc / advance / seek / fill_bitset_block calls on the buffered union model
+observes the specification's sequence (seek_danger, fill_buffer, count: see the open list) -/
+theorem C13_union_core_program_equiv_partial (hA : Lawful A VA WA)
+    (hscore : ∀ {c l}, VA c l → VA (A.score c).2 l) (H : Nat) (hH : 64 ∣ H) (hH0 : 0 < H)
+    (fx : Fix) (s : BUnion.State σ) (l : List Nat) (hV : BUnion.V VA H s l) (prog : List Op)
+    (hp : coreOnly prog = true) (hlegal : legalProg ⟨l, none⟩ prog = true) :
+    implRun (BUnion.ds A H fx) s prog = specRun ⟨l, none⟩ prog :=
+  core_program_equiv (BUnion.ds A H fx) (BUnion.V VA H) (BUnion.core hA hscore hH hH0 fx) rfl prog s l hV hp hlegal
+
 /-- the extracted horizon satisfies the side conditions -/
 theorem C13_union_horizon_ok : 64 ∣ Gen.UNION_HORIZON ∧ 0 < Gen.UNION_HORIZON
     ∧ Gen.UNION_HORIZON / 64 = Gen.UNION_HORIZON_NUM_TINYBITSETS := by decide
@@ -408,6 +432,7 @@ example : legalProg ⟨[1, 5, 9], none⟩
 example : specRun ⟨[1, 5, 9], none⟩ [.advance, .seek 6, .seekDanger 9, .fillBuffer, .doc]
     = [.doc 5, .doc 9, .sd true, .buf [9], .doc TERMINATED] := by decide
 example : ∀ x ∈ [1, 5, 9000], x + BLOCK_WINDOW ≤ TERMINATED := by decide
+example : coreOnly [.doc, .seek 5, .advance, .fillBitset 7] = true := by decide
 example : Inter.Common [1, 5, 9] [5, 9, 11] [[0, 5, 9], [9]] = [9] := by decide
 example : All2 Vec.V [Vec.init [] 1] [[]] := All2.cons ⟨rfl, Sorted.nil⟩ All2.nil
 example : Exclude.ok [[5, 7], [9]] 1 = true ∧ Exclude.ok [[5, 7], [9]] 9 = false := by decide
